@@ -179,3 +179,287 @@ class ManagerDriver:
         recent = [part_tag(p) for p in self.mgr._last_operation_invoked_reports]
         nset = [[tid, fut.n_set] for tid, fut in self.calls]
         return {'done': done, 'pend': pend, 'recent': recent, 'n_set': nset, 'errors': self.errors}
+
+
+# ----------------------------------------------------------------------------- shared state of the manager, hooked
+import threading  # noqa: E402
+from collections import deque  # noqa: E402
+
+
+class HookedLock:
+    """stands in for OperationsManager._transactions_lock; knows its owner; `hook(kind)` runs before every
+    acquire (the scheduler may only let the thread continue when the lock is free) and after every release"""
+
+    def __init__(self, hook=None):
+        self.owner = None
+        self.hook = hook
+        self.acquisitions = 0
+
+    def free(self):
+        return self.owner is None
+
+    def acquire(self, blocking=True, timeout=-1):  # noqa: ARG002
+        if self.hook:
+            self.hook('acquire')
+        if self.owner is not None:
+            raise RuntimeError('HookedLock: acquired while held (no scheduler, or the scheduler let a thread in)')
+        self.owner = threading.get_ident()
+        self.acquisitions += 1
+        if self.hook:
+            self.hook('acquired')
+        return True
+
+    def release(self):
+        self.owner = None
+        if self.hook:
+            self.hook('release')
+
+    def __enter__(self):
+        self.acquire()
+        return self
+
+    def __exit__(self, *a):
+        self.release()
+
+    def held_by_me(self):
+        return self.owner == threading.get_ident()
+
+
+class HookedDeque(deque):
+    """stands in for _last_operation_invoked_reports; `hook(kind)` runs before every access"""
+
+    hook = None
+
+    def append(self, item):
+        if self.hook:
+            self.hook('buffer.append')
+        super().append(item)
+
+    def appendleft(self, item):
+        if self.hook:
+            self.hook('buffer.appendleft')
+        super().appendleft(item)
+
+    def extend(self, items):
+        items = list(items)
+        if self.hook:
+            self.hook('buffer.extend')
+        super().extend(items)
+
+    def extendleft(self, items):
+        items = list(items)
+        if self.hook:
+            self.hook('buffer.extendleft')
+        super().extendleft(items)
+
+    def __iter__(self):
+        if self.hook:
+            self.hook('buffer.iter')
+        return super().__iter__()
+
+
+class HookedDict(dict):
+    """stands in for _transactions"""
+
+    hook = None
+
+    def __contains__(self, k):
+        if self.hook:
+            self.hook('transactions.contains')
+        return super().__contains__(k)
+
+    def __getitem__(self, k):
+        if self.hook:
+            self.hook('transactions.get')
+        return super().__getitem__(k)
+
+    def __setitem__(self, k, v):
+        if self.hook:
+            self.hook('transactions.set')
+        super().__setitem__(k, v)
+
+    def pop(self, *a):
+        if self.hook:
+            self.hook('transactions.pop')
+        return super().pop(*a)
+
+    def get(self, *a):
+        if self.hook:
+            self.hook('transactions.get')
+        return super().get(*a)
+
+
+def instrument(mgr, hook):
+    """replace lock, buffer and table of a fresh OperationsManager by hooked ones; returns the lock"""
+    lock = HookedLock(hook)
+    old = mgr._last_operation_invoked_reports
+    if not isinstance(old, deque) or len(old) or len(mgr._transactions):
+        raise SystemExit('fail-closed: OperationsManager state is not an empty deque + empty dict')
+    buf = HookedDeque(maxlen=old.maxlen)
+    buf.hook = hook
+    tab = HookedDict()
+    tab.hook = hook
+    if not hasattr(mgr, '_transactions_lock'):
+        raise SystemExit('fail-closed: OperationsManager has no _transactions_lock')
+    mgr._transactions_lock = lock
+    mgr._last_operation_invoked_reports = buf
+    mgr._transactions = tab
+    return lock
+
+
+def lock_discipline_probe(msgs):
+    """single-threaded: every access to the buffer and to the table of pending transactions made by call_operation
+    / on_operation_invoked_report, with the fact whether the calling thread holds the lock -> (accesses, unlocked)"""
+    d = ManagerDriver(msgs)
+    seen = {'accesses': 0, 'unlocked': []}
+    lock_box = []
+
+    def hook(kind):
+        if kind in ('acquire', 'acquired', 'release'):
+            return
+        seen['accesses'] += 1
+        if not lock_box[0].held_by_me():
+            seen['unlocked'].append(kind)
+    lock_box.append(instrument(d.mgr, hook))
+    d.run([['rep', [[1, 0, 0]]], ['resp', 1, 0], ['rep', [[1, 1, 1], [9, 4, 2]]], ['rep', [[1, 4, 3]]],
+           ['rep', [[3, 4, 4]]], ['resp', 3, 4], ['rep', [[2, 6, 5]]], ['resp', 2, 6], ['resp', 4, 6], ['rep', [[7, 0, 6]]]])
+    d.mgr._last_operation_invoked_reports.hook = None      # the harness' own look at the state does not count
+    d.mgr._transactions.hook = None
+    ob = d.observe()
+    return seen['accesses'], seen['unlocked'], ob
+
+
+class Scheduler:
+    """runs thread bodies one at a time; a thread gives up control at every hook point; at a point where several
+    threads could continue, `choices` decides (default: the first); returns the branching structure for a DFS"""
+
+    def __init__(self, choices):
+        self.choices = list(choices)
+        self.decisions = []          # (number of enabled threads, index chosen) at every real branching point
+        self.trace = []              # (thread, kind) in execution order
+        self.ctrl = threading.Semaphore(0)
+        self.threads = {}
+        self.names = {}
+        self.lock = None
+        self.unit = {}               # thread name -> what it is executing (response / report)
+        self.acq_order = []          # units in the order of their lock acquisitions
+        self.unlocked = []           # accesses to buffer / table without the lock
+        self.problem = None
+
+    def hook(self, kind):
+        name = self.names.get(threading.get_ident())
+        if name is None:
+            return
+        if kind == 'acquired':
+            self.acq_order.append(self.unit.get(name))
+            return
+        if kind not in ('acquire', 'release') and not self.lock.held_by_me():
+            self.unlocked.append(kind)
+        if kind == 'release':
+            return                   # the next point of this thread or of another one follows anyway
+        st = self.threads[name]
+        st['pending'] = kind
+        self.ctrl.release()
+        st['go'].acquire()
+        st['pending'] = None
+
+    def _enabled(self, st):
+        return st['pending'] is not None and (st['pending'] != 'acquire' or self.lock.free())
+
+    def run(self, bodies):
+        for name, body in bodies.items():
+            st = {'go': threading.Semaphore(0), 'pending': None, 'done': False, 'error': None}
+            self.threads[name] = st
+
+            def wrapper(name=name, body=body, st=st):
+                self.names[threading.get_ident()] = name
+                try:
+                    body()
+                except Exception as ex:  # noqa: BLE001
+                    st['error'] = type(ex).__name__ + ': ' + str(ex)[:200]
+                finally:
+                    st['done'] = True
+                    self.ctrl.release()
+            st['thread'] = threading.Thread(target=wrapper, daemon=True)
+        for name in sorted(self.threads):          # start one after the other: each runs up to its first point
+            self.threads[name]['thread'].start()
+            if not self.ctrl.acquire(timeout=20):
+                self.problem = f'thread {name} did not reach a point'
+                return
+        while True:
+            live = [n for n in sorted(self.threads) if not self.threads[n]['done']]
+            if not live:
+                return
+            enabled = [n for n in live if self._enabled(self.threads[n])]
+            if not enabled:
+                self.problem = 'deadlock: ' + ', '.join(f'{n} at {self.threads[n]["pending"]}' for n in live)
+                return
+            pick = 0
+            if len(enabled) > 1:
+                k = len(self.decisions)
+                pick = self.choices[k] if k < len(self.choices) else 0
+                if pick >= len(enabled):
+                    self.problem = 'schedule does not fit the run'
+                    return
+                self.decisions.append((len(enabled), pick))
+            name = enabled[pick]
+            self.trace.append((name, self.threads[name]['pending']))
+            self.threads[name]['go'].release()
+            if not self.ctrl.acquire(timeout=20):
+                self.problem = f'thread {name} did not come back'
+                return
+
+
+def run_schedule(msgs, scenario, choices, parsed):
+    """scenario: {'calls': [[id, st], ...] one calling thread each, 'reports': [[[id, st, tag], ...], ...] delivered one
+    after the other by the notification thread}.  -> observation of one schedule"""
+    d = ManagerDriver(msgs)
+    sch = Scheduler(choices)
+    sch.lock = instrument(d.mgr, sch.hook)
+    bodies = {}
+    for k, (tid, st) in enumerate(scenario['calls']):
+        def call(k=k, tid=tid, st=st):
+            name = f'call{k}'
+            sch.unit[name] = ['resp', tid, st]
+            client = StubServiceClient()
+            client.response = parsed['resp'][k]
+            fut = d.mgr.call_operation(client, d.request)
+            d.calls.append((tid, fut))
+        bodies[f'call{k}'] = call
+
+    def notify():
+        for k, parts in enumerate(scenario['reports']):
+            sch.unit['notify'] = ['rep', parts]
+            d.mgr.on_operation_invoked_report(parsed['rep'][k])
+    if scenario['reports']:
+        bodies['notify'] = notify
+    sch.run(bodies)
+    errors = [f'{n}: {st["error"]}' for n, st in sch.threads.items() if st['error']]
+    if sch.problem:
+        errors.append(sch.problem)
+    d.calls.sort(key=lambda c: c[0])
+    ob = d.observe()
+    ob['errors'] = ob['errors'] + errors
+    return {'obs': ob, 'order': sch.acq_order, 'decisions': sch.decisions, 'unlocked': sch.unlocked,
+            'trace': [f'{n}:{k}' for n, k in sch.trace]}
+
+
+def explore(msgs, scenario, limit):
+    """all schedules of one scenario at the granularity of the hook points (depth first, each exactly once)"""
+    parsed = {'resp': [msgs.response(tid, st) for tid, st in scenario['calls']],
+              'rep': [msgs.report([tuple(p) for p in parts]) for parts in scenario['reports']]}
+    out, stack = [], [[]]
+    complete = True
+    while stack:
+        if len(out) >= limit:
+            complete = False
+            break
+        prefix = stack.pop()
+        r = run_schedule(msgs, scenario, prefix, parsed)
+        r['choices'] = [c for _, c in r['decisions']]
+        out.append(r)
+        for i in range(len(prefix), len(r['decisions'])):
+            n, _ = r['decisions'][i]
+            for alt in range(1, n):
+                stack.append([c for _, c in r['decisions'][:i]] + [alt])
+    return out, complete
